@@ -267,6 +267,18 @@ def script(rng, case, idx):
                 if r:
                     plate = r
                     observe(lab, plate)
+        # ---------------- requests that need nothing: exactly feasible, so accepted under every configuration (the decision is
+        #                  recorded like every other one; with a heavy solute one stored digit is worth most)
+        heavy = pp.Substance.solid('IgG', rng.choice([150000.0, 66000.0, 507.18]))
+        made_at = rng.choice(['0.5 mg/mL', '50 ug/mL', '5 mg/mL', '1 mg/mL'])
+        st_ = attempt('nothing.stock', lambda: C.create_solution(heavy, water, concentration=made_at, total_quantity='1.5 mL'))
+        if st_ is not None:
+            wellp = P('np', '100 uL', rows=1, columns=2)
+            got_ = attempt('nothing.dispense', lambda: P.transfer(st_, wellp['A:1'], '20 uL'))
+            if got_ is not None:
+                attempt('nothing.top_up_to_the_volume_just_dispensed', lambda: got_[1].fill_to(water, '20 uL'))
+            attempt('nothing.solution_from_at_the_concentration_it_was_made_with', lambda: C.create_solution_from(st_, heavy, made_at, water, '0.5 mL'))
+            attempt('nothing.dilute_to_the_concentration_it_was_made_with', lambda: st_.dilute(heavy, made_at, water))
         # ---------------- a recipe over the same vocabulary with every tracking query
         nops[0] += 1
         r = pp.Recipe()
